@@ -91,3 +91,21 @@ Theorem c10_code_rtgen_layout : forall m rho present cnt base ants hdr T algn sz
 Proof. exact code_rtgen_layout. Qed.
 Print Assumptions c10_code_rtgen_layout.
 
+
+(* The DECODING side of the round trip at the level of the C text (also stated under C09): one turn of the field switch of
+   libwifi_parse_radiotap_info AS TRANSLATED assigns, for every field number and field contents, exactly the little-endian values at
+   the field's sub-offsets (TIMESTAMP: 64 bits at +0 as ONE load, accuracy at +8, unit +10, flags +11 - C10-n's byte-wise assembly
+   with `ts[3] << 24` in int is a different term and stops this obligation), and that turn is the specification's per-field decoder. *)
+From LW Require Import Spec.RadiotapChainSpec Proofs.CodeRadiotapParse.
+Theorem c10_code_decoder_switch_field : forall p fb rho tr k F,
+  0 < p -> p + zlen fb < 2 ^ 62 -> wfbytes fb -> rho "it.this_arg" = p ->
+  wrap (mkty true 32) (rho "it.this_arg_index") = k -> rt_size k <= zlen fb -> (30 <= F)%nat ->
+  exec F (mem_at p fb) rho tr [rt_switch] = Fell (rt_turn_env k fb rho) (tr ++ rt_turn_calls k p fb rho)%list.
+Proof. exact code_rtap_switch_field. Qed.
+Print Assumptions c10_code_decoder_switch_field.
+
+Theorem c10_code_decoder_switch_refines_spec : forall fb rho k x sk,
+  k <> 31 -> info_rel rho x sk ->
+  info_rel (rt_turn_env k fb rho) (fst (s_apply fb (x, sk) (k, 0))) (snd (s_apply fb (x, sk) (k, 0))).
+Proof. exact code_rtap_switch_refines_spec. Qed.
+Print Assumptions c10_code_decoder_switch_refines_spec.
